@@ -40,7 +40,17 @@ Section C02.
     in_domain feats = true -> in_domain feats' = true -> Permutation feats feats' ->
     import feats = Ok st -> import feats' = Ok st' -> forall x, In x (s_rels st) <-> In x (s_rels st').
   Proof. exact (l_order_independent call). Qed.
+
+  (* x never its own relative: without self-parents and two-cycles in the input (the property quantifies over DAGs; the
+     domain predicate itself does not exclude cycles, hence the two explicit hypotheses) no relation row relates a feature to
+     itself at any level - so, by C02_children_level / C02_parents_level, x is never among children(x) or parents(x) *)
+  Theorem C02_not_self : forall feats st, in_domain feats = true -> import feats = Ok st ->
+    (forall f, In f feats -> ~ In (fid f) (parents_of f)) ->
+    (forall f g, In f feats -> In g feats -> In (fid g) (parents_of f) -> ~ In (fid f) (parents_of g)) ->
+    forall x l, ~ In (mkRel x x l) (s_rels st).
+  Proof. exact (l_not_self call). Qed.
 End C02.
+Print Assumptions C02_not_self.
 Print Assumptions C02_import_ok.
 Print Assumptions C02_level1.
 Print Assumptions C02_level2.
@@ -97,6 +107,8 @@ Print Assumptions C02_relations_step_exact.
 (* ... and over every history of imports into one database - create_db, then any number of update() calls, each with
    its own strategy, ANY of the five ('replace' removes, besides the replaced version's level-1 parent links, the level-2
    rows that end at it or run through it - since the repair of F23), ids and Parent values free of TAB/CR/LF: the level-2
+   ([imports], Model/Hier.v: it returns an error - so the theorem says nothing - as soon as one batch is empty, an import
+   fails, or a stored id / Parent value contains TAB, CR or LF), the level-2
    rows are exactly the compositions of two level-1 rows starting at a stored feature (closed2: nothing deeper or stale is
    ever recorded as level 2; complete2: no grandchild of a stored feature is missing - also when the grandparent arrives in
    a later update than its grandchildren), and no other level occurs *)
